@@ -258,48 +258,46 @@ func (vc *VC) lenOf(st *State, x Term, t types.Type) Term {
 }
 
 // doAppend models append(s, t...): in place when capacity suffices, otherwise a fresh backing array.
+// Element axioms are stated over absolute indices so that E-matching finds them.
 func (vc *VC) doAppend(fr *Frame, st *State, pc string, c *ssa.CallCommon) Term {
 	s := vc.value(fr, st, c.Args[0])
 	t := vc.value(fr, st, c.Args[1])
 	sl := c.Args[0].Type().Underlying().(*types.Slice)
 	key := vc.memKey(sl.Elem())
-	es := vc.sortOf(sl.Elem())
+	mem := vc.heapGet(st, key)
+	arrS := arrSortElem(mem.Sort)
 	var tlen string
 	var tat func(i string) string
-	mem := vc.heapGet(st, key)
 	if t.Sort == SStr {
 		tlen = "(s_len " + t.S + ")"
 		tat = func(i string) string { return "(s_at " + t.S + " " + i + ")" }
 	} else {
-		tlen = "(sl.len " + t.S + ")"
+		tN := vc.define("apt", SSlice, t.S)
+		tlen = "(sl.len " + tN + ")"
 		tat = func(i string) string {
-			return sel(sel(mem.S, "(sl.base "+t.S+")"), "(+ (sl.off "+t.S+") "+i+")")
+			return sel(sel(mem.S, "(sl.base "+tN+")"), "(+ (sl.off "+tN+") "+i+")")
 		}
 	}
 	sN := vc.define("aps", SSlice, s.S)
-	n := vc.define("apn", SInt, "(+ (sl.len "+sN+") "+tlen+")")
+	tl := vc.define("aptl", SInt, tlen)
+	n := vc.define("apn", SInt, "(+ (sl.len "+sN+") "+tl+")")
 	fits := vc.define("apfits", SBool, "(<= "+n+" (sl.cap "+sN+"))")
 	newRef := vc.newRef(st, pc)
 	newCap := vc.fresh("apcap", SInt)
 	vc.emit("(assert (>= " + newCap + " " + n + "))")
 	res := vc.fresh("apres", SSlice)
 	vc.emit(fmt.Sprintf("(assert (= %s (ite %s (mk-slice (sl.base %s) (sl.off %s) %s (sl.cap %s)) (mk-slice %s 0 %s %s))))", res, fits, sN, sN, n, sN, newRef, n, newCap))
-	// new memory
-	nm := vc.fresh("apmem", mem.Sort)
-	arr := sel(nm, "(sl.base "+res+")")
-	// all other backing arrays unchanged
-	vc.emit(fmt.Sprintf("(assert (forall ((r Int)) (! (=> (not (= r (sl.base %s))) (= (select %s r) (select %s r))) :pattern ((select %s r)))))", res, nm, mem.S, nm))
-	// contents of the result window
-	oldAt := func(i string) string { return sel(sel(mem.S, "(sl.base "+sN+")"), "(+ (sl.off "+sN+") "+i+")") }
-	vc.emit(fmt.Sprintf("(assert (forall ((i Int)) (! (=> (and (<= 0 i) (< i (sl.len %s))) (= (select %s (+ (sl.off %s) i)) %s)) :pattern ((select %s (+ (sl.off %s) i))))))",
-		sN, arr, res, oldAt("i"), arr, res))
-	vc.emit(fmt.Sprintf("(assert (forall ((i Int)) (! (=> (and (<= 0 i) (< i %s)) (= (select %s (+ (sl.off %s) (sl.len %s) i)) %s)) :pattern ((select %s (+ (sl.off %s) (sl.len %s) i))))))",
-		tlen, arr, res, sN, tat("i"), arr, res, sN))
-	// in place: cells outside the appended window keep their value
-	vc.emit(fmt.Sprintf("(assert (=> %s (forall ((j Int)) (! (=> (or (< j (+ (sl.off %s) (sl.len %s))) (>= j (+ (sl.off %s) %s))) (= (select %s j) (select (select %s (sl.base %s)) j))) :pattern ((select %s j))))))",
-		fits, sN, sN, sN, n, arr, mem.S, sN, arr))
-	_ = es
-	st.heap[key] = Term{S: nm, Sort: mem.Sort}
+	oldA := sel(mem.S, "(sl.base "+sN+")")
+	// in place
+	inA := vc.fresh("apin", arrS)
+	end := vc.define("apend", SInt, "(+ (sl.off "+sN+") (sl.len "+sN+"))")
+	vc.emit(fmt.Sprintf("(assert (forall ((j Int)) (! (= (select %s j) (ite (and (<= %s j) (< j (+ %s %s))) %s (select %s j))) :pattern ((select %s j)))))",
+		inA, end, end, tl, tat("(- j "+end+")"), oldA, inA))
+	// fresh backing array
+	outA := vc.fresh("apout", arrS)
+	vc.emit(fmt.Sprintf("(assert (forall ((j Int)) (! (=> (and (<= 0 j) (< j %s)) (= (select %s j) (ite (< j (sl.len %s)) (select %s (+ (sl.off %s) j)) %s))) :pattern ((select %s j)))))",
+		n, outA, sN, oldA, sN, tat("(- j (sl.len "+sN+"))"), outA))
+	vc.heapSet(st, key, mkIte(fits, store(mem.S, "(sl.base "+sN+")", inA), store(mem.S, newRef, outA)))
 	return Term{S: res, Sort: SSlice, T: c.Args[0].Type()}
 }
 
@@ -307,29 +305,26 @@ func (vc *VC) doCopy(st *State, dst, src Term, dt, stt types.Type) Term {
 	sl := dt.Underlying().(*types.Slice)
 	key := vc.memKey(sl.Elem())
 	mem := vc.heapGet(st, key)
+	arrS := arrSortElem(mem.Sort)
 	var slen string
 	var sat func(i string) string
 	if src.Sort == SStr {
 		slen = "(s_len " + src.S + ")"
 		sat = func(i string) string { return "(s_at " + src.S + " " + i + ")" }
 	} else {
-		slen = "(sl.len " + src.S + ")"
+		sN := vc.define("cps", SSlice, src.S)
+		slen = "(sl.len " + sN + ")"
 		sat = func(i string) string {
-			return sel(sel(mem.S, "(sl.base "+src.S+")"), "(+ (sl.off "+src.S+") "+i+")")
+			return sel(sel(mem.S, "(sl.base "+sN+")"), "(+ (sl.off "+sN+") "+i+")")
 		}
 	}
 	d := vc.define("cpd", SSlice, dst.S)
 	n := vc.define("cpn", SInt, mkIte("(<= (sl.len "+d+") "+slen+")", "(sl.len "+d+")", slen))
-	nm := vc.fresh("cpmem", mem.Sort)
-	arr := sel(nm, "(sl.base "+d+")")
-	vc.emit(fmt.Sprintf("(assert (forall ((r Int)) (! (=> (not (= r (sl.base %s))) (= (select %s r) (select %s r))) :pattern ((select %s r)))))", d, nm, mem.S, nm))
-	vc.emit(fmt.Sprintf("(assert (forall ((i Int)) (! (=> (and (<= 0 i) (< i %s)) (= (select %s (+ (sl.off %s) i)) %s)) :pattern ((select %s (+ (sl.off %s) i))))))",
-		n, arr, d, sat("i"), arr, d))
-	vc.emit(fmt.Sprintf("(assert (forall ((j Int)) (! (=> (or (< j (sl.off %s)) (>= j (+ (sl.off %s) %s))) (= (select %s j) (select (select %s (sl.base %s)) j))) :pattern ((select %s j)))))",
-		d, d, n, arr, mem.S, d, arr))
-	// n == 0: nothing changes at all
-	vc.emit(fmt.Sprintf("(assert (=> (= %s 0) (= %s %s)))", n, nm, mem.S))
-	st.heap[key] = Term{S: nm, Sort: mem.Sort}
+	oldA := sel(mem.S, "(sl.base "+d+")")
+	newA := vc.fresh("cpa", arrS)
+	vc.emit(fmt.Sprintf("(assert (forall ((j Int)) (! (= (select %s j) (ite (and (<= (sl.off %s) j) (< j (+ (sl.off %s) %s))) %s (select %s j))) :pattern ((select %s j)))))",
+		newA, d, d, n, sat("(- j (sl.off "+d+"))"), oldA, newA))
+	vc.heapSet(st, key, mkIte("(= "+n+" 0)", mem.S, store(mem.S, "(sl.base "+d+")", newA)))
 	return Term{S: n, Sort: SInt, T: types.Typ[types.Int]}
 }
 
@@ -408,7 +403,7 @@ func (vc *VC) applyContract(fr *Frame, st *State, pc string, callee *ssa.Functio
 		vc.assumeAllocated(st, t, n)
 		res = append(res, Term{S: n, Sort: s, T: t})
 	}
-	env2 := &Env{vc: vc, vars: env.vars, cur: st, old: pre, pkg: env.pkg, tpkg: env.tpkg, results: res, calleeMode: true}
+	env2 := &Env{vc: vc, vars: withNamedResults(env.vars, rt, res), cur: st, old: pre, pkg: env.pkg, tpkg: env.tpkg, results: res, calleeMode: true}
 	for _, en := range spec.Ensures {
 		g := vc.evalBool(env2, en.Expr)
 		vc.assume(pc, g)
@@ -442,8 +437,7 @@ func (vc *VC) havocForCall(st, pre *State, env *Env, callee *ssa.Function, spec 
 			if _, ok := vc.eng.keySorts[k]; !ok {
 				continue
 			}
-			s := vc.heapSortOfKey(k)
-			st.heap[k] = Term{S: vc.fresh("hv", s), Sort: s}
+			vc.havocKey(st, k, "hv")
 		}
 		return
 	}
@@ -467,7 +461,7 @@ func (vc *VC) havocForCall(st, pre *State, env *Env, callee *ssa.Function, spec 
 			}
 		}
 		if whole {
-			st.heap[k] = Term{S: vc.fresh("hv", s), Sort: s}
+			vc.havocKey(st, k, "hv")
 			continue
 		}
 		cur := vc.heapGet(pre, k).S
@@ -842,7 +836,7 @@ func (e *Engine) modKeysOf(vc *VC, callee *ssa.Function, spec *FuncSpec) map[str
 	vc.scratch(func() {
 		names := paramNames(callee)
 		ptypes := paramTypes(callee)
-		st := &State{cells: map[*ssa.Alloc]Term{}, heap: map[string]Term{}}
+		st := newState()
 		env := &Env{vc: vc, vars: map[string]Term{}, cur: st, old: st, pkg: callee.Pkg, calleeMode: true}
 		if callee.Pkg == nil && callee.Object() != nil {
 			env.tpkg = callee.Object().Pkg()
@@ -880,3 +874,18 @@ func (vc *VC) scratch(f func()) {
 }
 
 var _ = token.NoPos
+
+func withNamedResults(vars map[string]Term, rt *types.Tuple, res []Term) map[string]Term {
+	out := map[string]Term{}
+	for k, v := range vars {
+		out[k] = v
+	}
+	for i := 0; i < rt.Len() && i < len(res); i++ {
+		if n := rt.At(i).Name(); n != "" && n != "_" {
+			if _, clash := out[n]; !clash {
+				out[n] = res[i]
+			}
+		}
+	}
+	return out
+}
